@@ -258,6 +258,38 @@ def run(ctx):
                             % (short_id(f.id), acc), where=g.loc(tm["line"]))
     ctx.floor("R7", n7, 5, "store calls in session point lookups")
 
+    # ---- R8: operators that were given a context actually consume it in versioned store calls
+    R8 = {
+        "ScanOperator": {"get_node_versioned": ("viewing_epoch", "tx_id")},
+        "ExpandOperator": {"get_edge_versioned": ("viewing_epoch", "tx_id"), "get_node_versioned": ("viewing_epoch", "tx_id")},
+        "VariableLengthExpandOperator": {"get_edge_versioned": ("viewing_epoch", "tx_id"), "get_node_versioned": ("viewing_epoch", "tx_id")},
+        "FactorizedExpandOperator": {"get_edge_versioned": ("viewing_epoch", "tx_id"), "get_node_versioned": ("viewing_epoch", "tx_id")},
+        "FactorizedExpandChain": {"get_edge_versioned": ("viewing_epoch", "tx_id"), "get_node_versioned": ("viewing_epoch", "tx_id")},
+        "CreateNodeOperator": {"create_node_versioned": ("viewing_epoch", "tx_id")},
+        "CreateEdgeOperator": {"create_edge_versioned": ("viewing_epoch", "tx_id")},
+        "DeleteNodeOperator": {"delete_node_at_epoch": ("viewing_epoch",)},
+        "DeleteEdgeOperator": {"delete_edge_at_epoch": ("viewing_epoch",)},
+    }
+    for tn, need in sorted(R8.items()):
+        got = {}
+        for m in P.methods_of(tn):
+            for g in P.family(m):
+                gx = None
+                for bi, tm in g.calls():
+                    cal = callee_name(tm)
+                    if cal.startswith(common.LPG + "::") and cal.split("::")[-1] in need:
+                        gx = gx or FlowCx(P, g)
+                        tg = set()
+                        for a in tm["args"][1:]:
+                            tg |= gx.tags(a)
+                        fields = {x.split(".")[-1] for x in tg if x.startswith("cell:%s." % tn)}
+                        got.setdefault(cal.split("::")[-1], set()).update(fields)
+        for acc, flds in sorted(need.items()):
+            ok = acc in got and all(fl in got[acc] for fl in flds)
+            ctx.ob("R8", "%s->%s" % (tn, acc), ok,
+                   what="%s does not read/write the store through LpgStore::%s with its own context (%s): it was handed the session's "
+                        "snapshot but decides visibility without it" % (tn, acc, ", ".join(flds)), where=P.adt(tn)["file"])
+
     # get_transaction_context: inside a transaction the epoch is the transaction's start epoch
     rows = []
     gx = FlowCx(P, gtc)
